@@ -2,7 +2,7 @@
    Only pinned statements (`Check name : statement`), `Theorem .. exact lemma` and
    `Print Assumptions`.  Models: Bits/Natural.v, Bits/BitIter.v, Bits/BitWriter.v. *)
 From RS Require Import Lib.Tac Lib.Outcome Lib.Bits Lib.ByteSweep
-  Bits.Natural Bits.BitIter Bits.BitWriter Bits.ReaderNat Bits.ReaderFail Bits.WriterFlush.
+  Bits.Natural Bits.BitIter Bits.BitWriter Bits.ReaderNat Bits.ReaderFail Bits.WriterFlush Bits.ReaderNth.
 Import ListNotations.
 Local Open Scope N_scope.
 
@@ -196,3 +196,15 @@ Theorem C13_writer_segments_reader : forall segs,
   bi_remaining (biter_of_bytes (bw_out w)) = concat (map pad8 segs).
 Proof. exact writer_segments_reader. Qed.
 Print Assumptions C13_writer_segments_reader.
+
+(* Iterator::nth on the reader: the k-th remaining bit; exactly the bits skipped and the bit returned are consumed,
+   past the end everything is, and the counter says so *)
+Theorem C13_reader_nth : forall k it, bi_inv it ->
+  let l := bi_remaining it in
+  let '(res, it') := bi_nth k it in
+  bi_inv it' /\
+  res = nth_error l k /\
+  bi_remaining it' = skipn (S k) l /\
+  bi_total it' = bi_total it + N.of_nat (Nat.min (S k) (length l)).
+Proof. exact bi_nth_spec. Qed.
+Print Assumptions C13_reader_nth.
